@@ -7,6 +7,7 @@ import (
 	"encoding/json"
 	"fmt"
 	"net"
+	"os"
 	"sort"
 	"sync"
 	"time"
@@ -121,22 +122,22 @@ type Node struct {
 
 // Link joins two nodes. The supervisor keeps it established while it is desired up and both nodes live.
 type Link struct {
-	A, B     string
-	CostA    float64 // cost configured at A's end
-	CostB    float64
-	OverrideA bool   // cost given as per-node override (BackendNodeCost) instead of backend default
+	A, B      string
+	CostA     float64 // cost configured at A's end
+	CostB     float64
+	OverrideA bool // cost given as per-node override (BackendNodeCost) instead of backend default
 	OverrideB bool
-	Spec     LinkSpec
-	Tap      TapFunc
+	Spec      LinkSpec
+	Tap       TapFunc
 
-	mu      sync.Mutex
-	up      bool
-	cur     *SessionPair
-	gen     int
-	silent  bool
-	stream  [2]*ChunkConn
+	mu                  sync.Mutex
+	up                  bool
+	cur                 *SessionPair
+	gen                 int
+	silent              bool
+	stream              [2]*ChunkConn
 	sockPort, proxyPort int
-	sockSplits int64
+	sockSplits          int64
 }
 
 // Generation counts the sessions the supervisor has created on this link so far (a stable link keeps its number).
@@ -160,13 +161,15 @@ func (l *Link) StreamSplits() int64 {
 }
 
 type Mesh struct {
-	mu     sync.Mutex
-	Opts   NodeOpts
-	Nodes  map[string]*Node
-	Links  []*Link
-	ctx    context.Context
-	cancel context.CancelFunc
-	wg     sync.WaitGroup
+	mu   sync.Mutex
+	Opts NodeOpts
+	// IdleByNode overrides Opts.MaxIdle for single nodes (set before StartNode)
+	IdleByNode map[string]time.Duration
+	Nodes      map[string]*Node
+	Links      []*Link
+	ctx        context.Context
+	cancel     context.CancelFunc
+	wg         sync.WaitGroup
 }
 
 func NewMesh(opts NodeOpts) *Mesh {
@@ -177,7 +180,20 @@ func NewMesh(opts NodeOpts) *Mesh {
 // StartNode creates a fresh Netceptor under the given ID and attaches a backend for every link that names it.
 func (m *Mesh) StartNode(id string) *Node {
 	ctx, cancel := context.WithCancel(m.ctx)
-	n := netceptor.NewWithConsts(ctx, id, 16384, m.Opts.RouteUpdate, m.Opts.ServiceAd, time.Hour, m.Opts.MaxHops, m.Opts.MaxIdle)
+	idle := m.Opts.MaxIdle
+	m.mu.Lock()
+	if d, ok := m.IdleByNode[id]; ok {
+		idle = d
+	}
+	m.mu.Unlock()
+	n := netceptor.NewWithConsts(ctx, id, 16384, m.Opts.RouteUpdate, m.Opts.ServiceAd, time.Hour, m.Opts.MaxHops, idle)
+	if p := os.Getenv("VX_RECEPTOR_LOG"); p != "" { // development aid: receptor's own log of every node, appended to a file
+		if f, err := os.OpenFile(p, os.O_APPEND|os.O_CREATE|os.O_WRONLY, 0o644); err == nil {
+			n.Logger.SetOutput(f)
+			n.Logger.SetPrefix(id)
+			logger.SetGlobalLogLevel(logger.InfoLevel)
+		}
+	}
 	node := &Node{ID: id, N: n, Cancel: cancel, ends: map[*Link]*MemBackend{}, sends: map[*Link]*StreamBackend{}}
 	m.mu.Lock()
 	m.Nodes[id] = node
